@@ -405,6 +405,12 @@ def order_independence(ctx):
 def run(ctx):
     containers.run_histories(ctx, {"resave"}, RULE)
     huge_padding(ctx)
+    # MP4: every layout of the C10 family re-saved unchanged and after edits (structure, offset tables, media bytes)
+    from props import c10
+    H = [[("save", None, "default", False), ("save", None, "default", True)],
+         [("save", "small", "default", False), ("save", None, "default", False), ("save", "small", "default", True)],
+         [("save", "5k", "zero", False), ("save", None, "zero", False), ("save", "empty", "default", False)]]
+    c10.run_shared(ctx, lambda i: [H[i % 3]] if ctx.quick else H, "c07")
     unknown_kept(ctx)
     order_independence(ctx)
     id3file_tie.run(ctx)
